@@ -36,6 +36,7 @@ func init() {
 		Explain: "Decides that snapshot I/O failures cannot crash the node or stop recording, structurally: the Snapshotter's file/writer handles are never left nil by any function (a nil store must be overwritten before every return), so no later use dereferences a nil writer; every error of a write/flush on the append path reaches the append wrapper's recovery branch, which (behind the retry interval only) re-runs compaction from in-memory state; errors of open/sync/rename are branched on and never flow into a panic; the tee goroutine that delivers events shares no handle state with the writer goroutine. Which faults an OS can produce and the 30 s timing are not covered.",
 		Run:     runC12,
 		Mutants: []Mutant{
+			{Name: "compact-temp-not-truncated", File: "serf/snapshot.go", Func: "func (s *Snapshotter) compact(", Old: "os.O_RDWR|os.O_TRUNC|os.O_CREATE", New: "os.O_RDWR|os.O_CREATE", Expect: "R6"},
 			{Name: "compact-before-buffering", File: "serf/snapshot.go", Func: "func (s *Snapshotter) appendLine(", Old: "\tn, err := s.buffered.WriteString(l)\n", New: "\tif s.offset+int64(len(l)) > s.snapshotMaxSize() {\n\t\tif err := s.compact(); err != nil {\n\t\t\treturn err\n\t\t}\n\t}\n\tn, err := s.buffered.WriteString(l)\n", Expect: "R3|appendLine"},
 			{Name: "throttle-armed-by-routine-compaction", File: "serf/snapshot.go", Func: "func (s *Snapshotter) compact(", Old: "\tnewPath := s.path + tmpExt\n", New: "\ts.lastAttemptedCompaction = time.Now()\n\tnewPath := s.path + tmpExt\n", Expect: "R4|throttle-writer"},
 			{Name: "handles-nil-on-error", File: "serf/snapshot.go", Func: "func (s *Snapshotter) compact(", Old: "\ts.fh.Close()\n\n\t// Move the new file into place\n", New: "\ts.fh.Close()\n\ts.buffered = nil\n\n\t// Move the new file into place\n", Expect: "R1"},
@@ -100,22 +101,7 @@ func runC11(c *an.Ctx) {
 			live := isLivePath(a) && (a != "$0" || fname == "NewSnapshotter")
 			c.Add(!live, "R1", fname+":no-destructive-call:"+kindOf(call), call, kindOf(call)+" must not target the live snapshot path (argument "+a+")", "argument path")
 		}
-		for _, call := range an.CallsTo(fn, "os.OpenFile") {
-			args := an.CallOf(call).Args
-			a := an.Path(args[0])
-			flags, okF := an.ConstInt(args[1])
-			if !okF {
-				c.Undecided("R1", fname+":open-flags", call, "os.OpenFile with non-constant flags")
-				continue
-			}
-			nOpen++
-			live := isLivePath(a) && (a != "$0" || fname == "NewSnapshotter")
-			if live {
-				c.Add(flags&oAPPEND != 0 && flags&oTRUNC == 0, "R1", fname+":live-open-append-only", call, "the live snapshot is opened O_APPEND and never O_TRUNC (flags "+hex(flags)+")", "constant flags")
-			} else {
-				c.Add(strings.HasSuffix(a, `+c:".compact")`) && flags&oTRUNC != 0 && flags&oCREATE != 0, "R2", fname+":temp-open-trunc", call, "the temporary file ("+a+") is opened O_TRUNC|O_CREATE so a stale temp from a crashed compaction is harmless", "constant flags")
-			}
-		}
+		nOpen += snapshotOpenFlags(c, fn, "R1", "R2")
 		for _, call := range an.CallsTo(fn, "os.Rename") {
 			nRename++
 			args := an.CallOf(call).Args
@@ -186,6 +172,7 @@ func runC11(c *an.Ctx) {
 			c.Add(an.Guarded(rp, in, okRead), "R3", "replay:complete-lines-only:"+kindOf(in), in, "replayed state changes only for lines that were read completely (a torn last line is ignored)", "edge dominance on ReadString's error")
 		})
 		c.Floor("R3", "state updates in replay", n, 8)
+		replayEveryLine(c, "R3")
 		// the line handed to the parsers is the read line minus its terminator
 	}
 	// R4 shutdown path (the leave path is C13.R2)
@@ -233,12 +220,67 @@ func hex(n int64) string {
 	return "0x" + s
 }
 
+// snapshotOpenFlags: the live snapshot is only ever opened append-only, the compaction's temporary file
+// only ever truncated (a stale temp left by a crashed or failed compaction must not leak into the next
+// one). Shared by C10, C11 and C12.
+func snapshotOpenFlags(c *an.Ctx, fn *ssa.Function, ruleLive, ruleTemp string) int {
+	n := 0
+	fname := an.FuncName(fn)
+	for _, call := range an.CallsTo(fn, "os.OpenFile") {
+		args := an.CallOf(call).Args
+		a := an.Path(args[0])
+		flags, okF := an.ConstInt(args[1])
+		if !okF {
+			c.Undecided(ruleLive, fname+":open-flags", call, "os.OpenFile with non-constant flags")
+			continue
+		}
+		n++
+		live := isLivePath(a) && (a != "$0" || fname == "NewSnapshotter")
+		if live {
+			c.Add(flags&oAPPEND != 0 && flags&oTRUNC == 0, ruleLive, fname+":live-open-append-only", call, "the live snapshot is opened O_APPEND and never O_TRUNC (flags "+hex(flags)+")", "constant flags")
+		} else {
+			c.Add(strings.HasSuffix(a, `+c:".compact")`) && flags&oTRUNC != 0 && flags&oCREATE != 0 && flags&oAPPEND == 0, ruleTemp, fname+":temp-open-trunc", call, "the temporary file ("+a+") is opened O_TRUNC|O_CREATE so a stale temp from a crashed compaction is harmless", "constant flags")
+		}
+	}
+	return n
+}
+
+// replayEveryLine: replay leaves its loop only when the read fails (end of file): after a line that was
+// read completely, every path leads back to the next read, whatever the line said. Records behind a
+// "leave" marker, an unknown line or an unparsable one still count. Shared by C10, C11, C13 and C14.
+func replayEveryLine(c *an.Ctx, rule string) {
+	rp := sm(c, rule, "Snapshotter", "replay")
+	if rp == nil {
+		return
+	}
+	okRead := an.EdgesWhere(rp, func(f an.Cmp) bool {
+		return strings.HasPrefix(f.L, "bufio.(*Reader).ReadString(") && strings.HasSuffix(f.L, "#1") && f.Op == "==" && f.R == "c:nil"
+	})
+	c.Floor(rule, "ReadString success edges", len(okRead), 1)
+	isRead := func(in ssa.Instruction) bool { return an.IsCallTo(in, "bufio.(*Reader).ReadString") }
+	for _, e := range okRead {
+		out := an.ReachFromBlock(rp, e.To(), &an.Cut{Instrs: isRead}, func(in ssa.Instruction) bool {
+			return an.IsExit(in) || an.IsCallTo(in, "os.(*File).Seek")
+		})
+		c.Add(out == nil, rule, "replay:every-line-read", rp, "after a complete line replay always goes on to the next line: the loop ends only when the read fails (records after a leave marker or an unknown line still count)", "reach/cut: no exit reachable from a successful read without reading again")
+		if out != nil {
+			c.Obs[len(c.Obs)-1].Desc += " — leaves the loop towards " + c.P.InstrPos(out)
+		}
+	}
+}
+
 func runC12(c *an.Ctx) {
 	c.Rule("R1 handle typestate: every store of nil to Snapshotter.fh/buffered is overwritten by a non-nil store before every return of that function")
 	c.Rule("R3 error discipline: WriteString/Flush errors on the append path are returned; appendLine's error reaches tryAppend's recovery branch; no error value flows into panic")
 	c.Rule("R4 recovery: on an append error compact() is reached behind the retry-interval test only, and compact rewrites from in-memory state")
 	c.Rule("R5 the tee goroutine touches no file/handle/alive-set state")
 	fns := snapFuncs(c)
+	c.Rule("R6 (shared with C11) the compaction's temporary file is opened truncated and the live file append-only: what a failed compaction left behind does not leak into the file the next compaction installs")
+	nO := 0
+	for _, fn := range fns {
+		nO += snapshotOpenFlags(c, fn, "R6", "R6")
+	}
+	c.Floor("R6", "os.OpenFile calls of the snapshotter", nO, 3)
 	// R1
 	nH := 0
 	for _, field := range []string{"fh", "buffered"} {
@@ -454,7 +496,7 @@ func runC12(c *an.Ctx) {
 			})
 			for _, call := range an.FindInstrs(f, func(in ssa.Instruction) bool { return an.CallOf(in) != nil }) {
 				callee := an.StaticCallee(an.CallOf(call))
-				if callee != nil && strings.HasPrefix(an.CalleeName(callee), "(*Snapshotter).") && callee.Parent() == nil {
+				if callee != nil && strings.HasPrefix(an.CalleeName(callee), "(*Snapshotter).") && callee.Parent() == nil && !an.Transparent(callee) {
 					c.Add(false, "R5", "teeStream:calls:"+an.CalleeName(callee), call, "the tee goroutine calls into the writer's methods", "")
 				}
 			}
